@@ -383,7 +383,13 @@ func (c *syntaxLoader) collectDirectives(p ast.ParserSection) {
 	}
 	// Sets pass 2. Resolve the rhs.
 	for _, s := range setsToResolve {
-		*c.out.Sets[s.index] = *c.convertSet(s.expr)
+		set := c.convertSet(s.expr)
+		if slices.Index(c.out.Sets, set) >= 0 {
+			// A bare reference to another named set (possibly declared later and not yet resolved, or
+			// to this very set): keep the reference instead of copying the current content of its target.
+			set = &syntax.TokenSet{Kind: syntax.Union, Sub: []*syntax.TokenSet{set}, Origin: s.expr.TmNode()}
+		}
+		*c.out.Sets[s.index] = *set
 	}
 
 	for _, mapping := range c.mapping {
